@@ -296,6 +296,10 @@ def _run(case, socketio, cls, aio, server, loop):
         try:
             run(obj._trigger_event('disconnect', ns, *args, 'a reason'))
         except Exception as e:
+            if isinstance(e, TypeError) and 'positional arguments' in str(e):
+                raise Violation('legacy-disconnect-fallback', 'the old-style '
+                                'handler was not called with the %d arguments '
+                                'before the reason: %r' % (len(args), e))
             v = core.as_violation(e)
             if v is None:
                 raise
